@@ -952,3 +952,46 @@ def r11(R):
               'chain')
     for v in vs:
         R.violation(v.node, v.message, g, v.path)
+
+
+# ------------------------------------------------------------------ C17.R12
+@rule('C17.R12', 'every transaction record a storage iterator yields '
+      'provides what a destination\'s tpc_begin reads from its transaction '
+      'argument (sibling agreement between record classes and tpc_begin)',
+      min_instances=2)
+def r12(R):
+    from ..twopc import BS
+    bs = R.prog.cls(BS)
+    beg = R.method(bs, 'tpc_begin')
+    tparam = [p for p in beg.params if p != 'self'][0]
+    reads = sorted({x.attr for x in walk_local(beg.node)
+                    if isinstance(x, ast.Attribute) and isinstance(
+                        x.value, ast.Name) and x.value.id == tparam and
+                    isinstance(x.ctx, ast.Load)})
+    R.require(reads, 'BaseStorage.tpc_begin reads nothing from its '
+              'transaction')
+    n = 0
+    for c in R.prog.all_classes():
+        if c.name not in ('TransactionRecord', '_TransactionRecord') or \
+                c.module.name.endswith('interfaces'):
+            continue
+        n += 1
+        have = set()
+        for k in R.prog.mro(c):
+            if not hasattr(k, 'methods'):
+                continue
+            have |= set(k.methods) | set(getattr(k, 'attrs', {}))
+            have |= set(R.prog.self_attr_facts(k))
+        R.instance('%s' % c.qualname, provides=sorted(
+            a for a in reads if a in have))
+        missing = [a for a in reads if a not in have]
+        if missing:
+            R.violation(
+                (c.module.relpath, c.qualname, 'attributes read by '
+                 'tpc_begin', c.node.lineno),
+                'the records yielded by this storage\'s iterator lack %s, '
+                'which BaseStorage.tpc_begin reads from the transaction it '
+                'is given: copying this storage into another fails at the '
+                'first transaction (AttributeError)' % ', '.join(missing),
+                key='record class lacks what tpc_begin reads')
+    R.require(n >= 2, 'transaction record classes not found')
